@@ -50,8 +50,8 @@ theorem chkS64_ok (x : Int) (h0 : -(2:Int)^63 ≤ x) (h1 : x < (2:Int)^63) : chk
 
 theorem pad_size_eq (f : FormatSpec) (size : Nat) (nt : NumType)
     (hmin : -(2:Int)^31 ≤ f.minimumLength ∧ f.minimumLength < (2:Int)^31) (hsize : size < 2 ^ 62) :
-    Kernels.pad_size f.minimumLength (if f.alwaysSigned then 1 else 0) (if f.classPrefix then 1 else 0)
-      (digitCode f.digitClass) size (numCode nt) = .ok (padSize f size nt) := by
+    Kernels.pad_size (if f.alwaysSigned then 1 else 0) (if f.classPrefix then 1 else 0)
+      (digitCode f.digitClass) f.minimumLength size (numCode nt) = .ok (padSize f size nt) := by
   obtain ⟨hm0, hm1⟩ := hmin
   unfold Kernels.pad_size padSize
   rw [pad_size_first f.minimumLength size (by omega) (by omega) (by omega) (by omega),
